@@ -396,8 +396,14 @@ def run(argv, cwd=None, env=None, stdin=b"", timeout=120, preexec=None):
         return -9, out, err, True
 
 
-def fclones(args, scratch, cwd=None, stdin=b"", env_extra=None, timeout=120):
-    return run([FCLONES] + list(args), cwd=cwd or scratch.tree, env=scratch.env(env_extra), stdin=stdin,
+UNPRIV = ["setpriv", "--reuid=65534", "--regid=65534", "--clear-groups"]
+
+
+def fclones(args, scratch, cwd=None, stdin=b"", env_extra=None, timeout=120, unpriv=False):
+    """unpriv: run as uid/gid 65534 (the scratch root is opened up for that user; the files keep their owner)."""
+    if unpriv:
+        subprocess.run(["chmod", "-R", "a+rwX", scratch.root], check=False)
+    return run((UNPRIV if unpriv else []) + [FCLONES] + list(args), cwd=cwd or scratch.tree, env=scratch.env(env_extra), stdin=stdin,
                timeout=timeout)
 
 
